@@ -259,6 +259,15 @@ Definition runonce (epoll : bool) (s : state) (b : N) (loop_regs desc_regs : lis
       match do_exec s2 cbs2 with Some (s3, _) => Some s3 | None => None end
   end.
 
+(* The same iteration when the poller's wait (select / epoll_wait) fails with EINTR: the loop callbacks and the
+   due timers have run (Poll calls ExecuteTimeouts before it waits); Poll then returns at once - no sleep, no
+   descriptor callback, no second ExecuteTimeouts.  Timers that are due are served by the next iteration. *)
+Definition runonce_intr (s : state) (loop_regs : list reg3) (cbs1 : list script) : option state :=
+  match do_exec (do_regs s loop_regs) cbs1 with
+  | None => None
+  | Some (s1, _) => Some s1
+  end.
+
 Inductive op :=
 | OReg (rep : bool) (iv h : N)
 | OCancel (h : N)
